@@ -55,6 +55,11 @@ func (te *tableEngine) tableGameOpen() error {
 					return nil
 				}
 
+				// closed or released while waiting for the retry: no hand opens any more
+				if te.table.State.Status == TableStateStatus_TableClosed || te.isReleased {
+					return nil
+				}
+
 				newTable, err = te.openGame(te.table)
 				if err != nil {
 					if errors.Is(err, ErrTableOpenGameFailed) {
